@@ -1,9 +1,9 @@
 SPECIFICATION Spec
 CONSTANTS
   RewriteAllSites = TRUE
-  RewriteOnEndpoint <- NotQueued
+  RewriteOnEndpoint <- AllEndpoints
   SingleApplyPath = TRUE
-  SiteIndependent = TRUE
+  SiteIndependent = FALSE
   Mode = "mc"
   MaxReq = 2
   MaxClock = 2
